@@ -147,6 +147,16 @@ def out_scalar(d, T):
     return bool((d >> 5) & 1)
 
 
+PAT = "ab c  de f   gh i jk  lmn o  pq r s t u v w x yz"
+
+
+def out_string_n(n, maxlen):
+    k = max(n, 0)
+    if maxlen >= 0:
+        k = min(k, maxlen)
+    return PAT[:k]
+
+
 def out_string(d, maxlen):
     """String derived from d, at most maxlen characters (maxlen < 0: unbounded)."""
     variants = ["r%08x" % (d & 0xFFFFFFFF), "a b%04x" % (d & 0xFFFF), "", "x", " lead%02x" % (d & 0xFF), "mid  dle%x" % (d & 0xF)]
@@ -516,6 +526,12 @@ def impl_function(f, lang, qual=""):
     else:
         lines.append("    vf_end();")
     lines.append("}")
+    ol = next((p["name"] for p in f["params"] if p.get("role") == "outlen"), None)
+    if ol:
+        lines = [ln.replace("vf_out_str(", "vf_out_strn((long)%s, " % ol) for ln in lines]
+        if r["kind"] in ("cstr", "cstr_len"):
+            i = next(i for i, ln in enumerate(lines) if ln.lstrip().startswith("static char vfR[64];"))
+            lines.insert(i, '    if (%s < 0) { vf_log_s("ret", NULL, 0); vf_end(); return NULL; }   /* a NULL result */' % ol)
     return lines
 
 
@@ -665,6 +681,10 @@ def model_call(f, args, this_serial=None):
             d = dmix(d, h_str(v))
     send, out = {}, {}
     ko = 0
+    oln = next((args[p["name"]] for p in f["params"] if p.get("role") == "outlen"), None)
+
+    def ostr(dd, maxlen):
+        return out_string(dd, maxlen) if oln is None else out_string_n(oln, maxlen)
     for p in f["params"]:
         k, T, n = p["kind"], p.get("T"), p["name"]
         if k not in OUT_KINDS:
@@ -686,15 +706,15 @@ def model_call(f, args, this_serial=None):
             send[n] = repr_array(v, T)
             out[n] = v
         elif k == "cstr_out":
-            v = out_string(dk, p["charlen"] - 1)
+            v = ostr(dk, p["charlen"] - 1)
             send[n] = repr_str(v)
             out[n] = v
         elif k == "cstr_inout":
-            v = out_string(dk, len(args[n].encode("latin-1")))
+            v = ostr(dk, len(args[n].encode("latin-1")))
             send[n] = repr_str(v)
             out[n] = v
         elif k in ("str_ref_out", "str_ref_inout", "str_ptr_out", "str_ptr_inout"):
-            v = out_string(dk, 40)
+            v = ostr(dk, 40)
             send[n] = repr_str(v)
             out[n] = v
         elif k in ("vec_out", "vec_inout"):
@@ -705,17 +725,20 @@ def model_call(f, args, this_serial=None):
     r = f["ret"]
     ret = None
     dr = sub(d, 99)
-    if r["kind"] in ("val", "ptr_scalar"):
+    if r["kind"] in ("cstr", "cstr_len") and oln is not None and oln < 0:
+        ret = None
+        send["ret"] = "null"
+    elif r["kind"] in ("val", "ptr_scalar"):
         ret = out_scalar(dr, r["T"])
         send["ret"] = repr_scalar(ret, r["T"])
     elif r["kind"] in ("cstr", "str_val", "str_cref"):
-        ret = out_string(dr, 40)
+        ret = ostr(dr, 40)
         send["ret"] = repr_str(ret)
     elif r["kind"] in ("cstr_len", "str_cref_len"):
-        ret = out_string(dr, min(40, r["N"] + 8))
+        ret = ostr(dr, min(40, r["N"] + 8))
         send["ret"] = repr_str(ret)
     elif r["kind"] == "str_ptr_own":
-        ret = out_string(dr, 40)
+        ret = ostr(dr, 40)
         send["ret"] = repr_str(ret)
     elif r["kind"] in ("arr_ptr", "vec_val"):
         cnt = out_len(dr) + (1 if r["kind"] == "arr_ptr" else 0)
